@@ -155,6 +155,11 @@ class State:
             s._filters = list(self._filters)
         if '_fi_done' in self.__dict__:
             s._fi_done = set(self._fi_done)
+        s.n_writes = getattr(self, 'n_writes', 0)
+        s.writes = dict(getattr(self, 'writes', {}))
+        for k_ in ('_lin_last', '_bp_last'):
+            if k_ in self.__dict__:
+                setattr(s, k_, self.__dict__[k_] if not isinstance(self.__dict__[k_], dict) else dict(self.__dict__[k_]))
         return s
 
     def assume(self, c):
@@ -483,7 +488,9 @@ class Engine:
                 o = self.bound_as_value(st, o)
             if self.hooks and hasattr(self.hooks, 'setattr'):
                 if self.hooks.setattr(self, st, o, tgt.attr, val, node) is not NotImplemented:
+                    st.n_writes = getattr(st, 'n_writes', 0) + 1
                     return
+            st.n_writes = getattr(st, 'n_writes', 0) + 1          # heap write: comprehension values are keyed by the write epoch
             if isinstance(o, Obj):
                 st.fields[(str(o.t), tgt.attr)] = val
             else:
@@ -492,9 +499,16 @@ class Engine:
             o = self.ev(st, tgt.value)
             k = self.ev(st, tgt.slice)
             if self.hooks and hasattr(self.hooks, 'setitem'):
+                # site contracts are evaluated here, in the state the stored value was computed in (same write epoch)
                 if self.hooks.setitem(self, st, tgt, o, k, val, node) is not NotImplemented:
+                    self.bump_writes(st, tgt)
                     return
-            self.store_item(st, tgt.value, o, k, val, node)
+            self.bump_writes(st, tgt)
+            self._in_store = True
+            try:
+                self.store_item(st, tgt.value, o, k, val, node)
+            finally:
+                self._in_store = False
         else:
             raise Unsupported('assignment target %s' % type(tgt).__name__)
 
@@ -533,7 +547,22 @@ class Engine:
             new.ghost = self.hooks.join_ghost(self, st, o, val) if self.hooks and hasattr(self.hooks, 'join_ghost') else None
         self.rebind(st, target_expr, new)
 
+    def bump_writes(self, st, tgt):
+        """x[k] = v on a local container x changes what comprehensions over x denote, and nothing else (local containers are not
+        aliased: the encoding's functional update of x already assumes it); any other store advances the global epoch."""
+        root = tgt
+        while isinstance(root, ast.Subscript):
+            root = root.value
+        if isinstance(root, ast.Name):
+            w = dict(getattr(st, 'writes', {}))
+            w[root.id] = w.get(root.id, 0) + 1
+            st.writes = w
+        else:
+            st.n_writes = getattr(st, 'n_writes', 0) + 1
+
     def rebind(self, st, expr, new):
+        if not (getattr(self, '_in_store', False) and isinstance(expr, ast.Name)):
+            st.n_writes = getattr(st, 'n_writes', 0) + 1
         if isinstance(expr, ast.Name):
             st.env[expr.id] = new
         elif isinstance(expr, ast.Attribute):
@@ -695,6 +724,7 @@ class Engine:
         return no, self.c.get('loops', {}).get(no, {})
 
     def havoc_mods(self, st, mods, taints, tag, ghosts=None):
+        st.n_writes = getattr(st, 'n_writes', 0) + 1
         mods = [m for m in mods if not m.startswith('?')] + \
                [m[1:] for m in mods if m.startswith('?') and m[1:] in st.env and m[1:] not in mods]
         for m in [m for m in mods if m.startswith('@')]:
@@ -1382,9 +1412,48 @@ class Engine:
         vals = [self.ev(st2, x) for x in elts]
         # obligations raised inside the element expression were recorded against st2's path (sound)
         tt = t_or(*(taints + [v.taint for v in vals]))
-        o = Obj(self.fresh(kind, V), cls=kind, taint=tt)
+        o = Obj(self.comp_term(st, e, kind), cls=kind, taint=tt)
         o.ghost = {'elem_ghost': getattr(vals[-1], 'ghost', None), 'elem': vals[-1], 'len_taint': t_or(*taints)}
         return o
+
+    def comp_term(self, st, e, kind):
+        """The value of a comprehension the sequence theory does not model: a deterministic function of (a) the comprehension's text
+        up to the names of its own bound variables, (b) the current values of its free variables, (c) the number of heap writes
+        performed so far on this path (what its free variables point to may have changed) - so that the same comprehension
+        evaluated twice in one state (once by the code, once by a specification) denotes the same value.  Purity of the element
+        and filter expressions is the standing assumption on callees without contract."""
+        import copy as _copy, hashlib
+        bound = set()
+        for g in e.generators:
+            for n in ast.walk(g.target):
+                if isinstance(n, ast.Name):
+                    bound.add(n.id)
+        for n in ast.walk(e):
+            if isinstance(n, ast.Lambda):
+                bound.update(a.arg for a in n.args.args)
+        order = {}
+        class _Alpha(ast.NodeTransformer):
+            def visit_Name(self_, n):
+                if n.id in bound:
+                    order.setdefault(n.id, 'b%d' % len(order))
+                    return ast.copy_location(ast.Name(id=order[n.id], ctx=n.ctx), n)
+                return n
+        norm = _Alpha().visit(_copy.deepcopy(e))
+        key = hashlib.sha1((kind + ast.dump(norm)).encode()).hexdigest()[:10]
+        free = sorted({n.id for n in ast.walk(e) if isinstance(n, ast.Name) and isinstance(n.ctx, ast.Load) and n.id not in bound})
+        args = [z3.IntVal(getattr(st, 'n_writes', 0) * 1000003 + sum((i_ + 1) * 7919 * getattr(st, 'writes', {}).get(nm_, 0) for i_, nm_ in enumerate(free)))]
+        for nm in free:
+            v = st.env.get(nm)
+            if v is None:
+                continue                      # a global / builtin: fixed
+            try:
+                if isinstance(v, Bound):
+                    v = self.bound_as_value(st, v)
+                args.append(self.to_V(v))
+            except Unsupported:
+                args.append(self.fresh('free_' + nm, V))
+        f = self.uf('comp_%s_%s' % (kind, key), *([I] + [V] * (len(args) - 1) + [V]))
+        return f(*args)
 
     def ev_ListComp(self, st, e):
         if hasattr(self, 'arr_comp'):
@@ -1629,6 +1698,14 @@ class Engine:
     def builtin(self, st, name, recv, args, kw, node):
         tt = t_or(*[v.taint for v in ([recv] if recv is not None else []) + list(args) + list(kw.values())])
         if recv is None:
+            if name in ('sum', 'max', 'min', 'any', 'all') and len(args) == 1 and not kw and isinstance(args[0], Obj) and args[0].cls in ('list', 'set', 'dict') \
+                    and str(args[0].t.decl().name()).startswith('comp_'):
+                r_ = self.uf('reduce_' + name, V, V)(args[0].t)
+                if name in ('any', 'all'):
+                    return BoolV(self.uf('truth_of', V, B)(r_), taint=tt)
+                if isinstance((args[0].ghost or {}).get('elem'), Num):
+                    return Num(self.uf('as_real', V, R)(r_), npy=True, taint=tt)      # a sum / max / min of numbers is a number
+                return Obj(r_, taint=tt, ghost={'elem_ghost': (args[0].ghost or {}).get('elem_ghost')} if name == 'sum' else None)
             if name == 'as_real' and len(args) == 1 and self.in_spec():
                 # spec function: the number a numeric object stands for (the same conversion a local typed 'real' gets)
                 a = args[0]
